@@ -8,7 +8,7 @@ from ..algebra import Poly
 from ..degrees import check_degree, declared_degree
 from ..dimscan import scan
 from ..index import AnalysisError
-from ..inertia3d import NAMES, abs_of_det, check_display, expected_integrand, lambda_poly, matrix_display
+from ..inertia3d import NAMES, abs_of_det, component_map, expected_integrand, lambda_poly
 from ..report import Result
 
 EXPLANATION = (
@@ -54,10 +54,11 @@ def run(index, tier="quick", seed=0) -> Result:
         raise AnalysisError("anchor vanished: Polyhedron._compute_inertia_tensor")
     where = f"{fn.file}:{fn.lineno}"
     found = 0
+    comp_of, disp_probs = component_map(fn.node)
     for node in ast.walk(fn.node):
-        if isinstance(node, ast.Assign) and isinstance(node.targets[0], ast.Name) and node.targets[0].id in NAMES \
+        if isinstance(node, ast.Assign) and isinstance(node.targets[0], ast.Name) and node.targets[0].id in comp_of \
                 and isinstance(node.value, ast.Call) and node.value.args and isinstance(node.value.args[0], ast.Lambda):
-            name = node.targets[0].id
+            name = comp_of[node.targets[0].id]
             found += 1
             got = lambda_poly(node.value.args[0])
             want = expected_integrand(name)
@@ -70,7 +71,7 @@ def run(index, tier="quick", seed=0) -> Result:
                 res.bad("AXI", k, f"{fn.file}:{node.lineno}", f"{name} integrates {got}; its definition is {want}")
     if found < 6:
         raise AnalysisError(f"only {found} Kallay integrands found (6 confirmed)")
-    probs = check_display(matrix_display(fn.node))
+    probs = disp_probs
     if probs:
         res.bad("AXI", "Polyhedron._compute_inertia_tensor:display", where, "returned matrix: " + "; ".join(probs))
     else:
@@ -116,19 +117,27 @@ def run(index, tier="quick", seed=0) -> Result:
 
 
 def _tet_rule(res, fn):
-    ti = [x for x in ast.walk(fn.node) if isinstance(x, ast.FunctionDef) and x.name == "triangle_integrate"]
+    # the integrator: the nested function that calls its own first parameter (the integrand); names carry no meaning
+    ti = [x for x in ast.walk(fn.node) if isinstance(x, ast.FunctionDef) and x is not fn.node and x.args.args
+          and any(isinstance(c, ast.Call) and isinstance(c.func, ast.Name) and c.func.id == x.args.args[0].arg for c in ast.walk(x))]
     k = "Polyhedron._compute_inertia_tensor:triangle_integrate"
     if not ti:
         res.not_in_fragment.append(f"TET {k}: helper not found")
         return
     ti = ti[0]
     farg = ti.args.args[0].arg
+    local_ti = {t.id for n_ in ast.walk(ti) if isinstance(n_, ast.Assign) for t in n_.targets if isinstance(t, ast.Name)} | {farg}
+    simp_names = {n_.value.id for n_ in ast.walk(ti) if isinstance(n_, ast.Subscript) and isinstance(n_.value, ast.Name)
+                  and n_.value.id not in local_ti and isinstance(n_.slice, ast.Tuple) and len(n_.slice.elts) == 3}
+    outer_assigns = {n_.targets[0].id: n_.value for n_ in ast.walk(fn.node) if isinstance(n_, ast.Assign)
+                     and len(n_.targets) == 1 and isinstance(n_.targets[0], ast.Name)}
+    vol_names = {nm for nm, v_ in outer_assigns.items() if nm not in local_ti and "linalg.det" in ast.unparse(v_)}
     # symbolic vertices a, b, c with coordinates (u, v): f = u * v  (covers squares by u = v)
     P = {k_: (Poly.atom(f"{k_}u"), Poly.atom(f"{k_}v")) for k_ in "abc"}
     env = {}
 
     def vec(n):
-        if isinstance(n, ast.Subscript) and ast.unparse(n.value) == "simplices":
+        if isinstance(n, ast.Subscript) and isinstance(n.value, ast.Name) and n.value.id in simp_names:
             elts = n.slice.elts if isinstance(n.slice, ast.Tuple) else [n.slice]
             try:
                 i = ast.literal_eval(elts[1])
@@ -145,7 +154,7 @@ def _tet_rule(res, fn):
         if isinstance(n, ast.Name):
             if n.id in env:
                 return env[n.id]
-            if n.id == "volumes":
+            if n.id in vol_names:
                 return Poly.atom("V")
             return None
         if isinstance(n, ast.Constant) and isinstance(n.value, (int, float)):
@@ -186,6 +195,24 @@ def _tet_rule(res, fn):
         res.ok("TET", k, sample={"rule": "V/20 (f(a)+f(b)+f(c)+f(a+b+c))"})
     else:
         res.bad("TET", k, f"{fn.file}:{ti.lineno}", f"tetrahedron rule evaluates to {out}; exact integral of a quadratic monomial over (0,a,b,c) is {exact}")
+
+
+def _expanded(expr, fn_node, depth=0):
+    """source text of `expr` with local names replaced by the expressions assigned to them (names carry no meaning)."""
+    assigns = {}
+    for n in ast.walk(fn_node):
+        if isinstance(n, ast.Assign) and len(n.targets) == 1 and isinstance(n.targets[0], ast.Name):
+            assigns.setdefault(n.targets[0].id, n.value)
+
+    def go(e, d, seen):
+        out = ast.unparse(e)
+        if d > 5:
+            return out
+        for x in ast.walk(e):
+            if isinstance(x, ast.Name) and x.id in assigns and x.id not in seen:
+                out += " <- " + go(assigns[x.id], d + 1, seen | {x.id})
+        return out
+    return go(expr, 0, frozenset())
 
 
 def _sign_convention(res, index):
@@ -234,8 +261,10 @@ def _sign_convention(res, index):
                 if (l.endswith("[:,3]") and not l.startswith("-")) != (r.endswith("[:,3]") and not r.startswith("-")):
                     ok = True
             if pol == "negmax" and isinstance(node, ast.UnaryOp) and isinstance(node.op, ast.USub):
-                s = ast.unparse(node.operand)
-                if "max" in s and "distances" in s:
+                op_ = node.operand
+                is_max = isinstance(op_, ast.Call) and (ast.unparse(op_.func) in ("np.max", "np.amax", "max") or
+                                                         (isinstance(op_.func, ast.Attribute) and op_.func.attr == "max"))
+                if is_max and "_point_plane_distances" in _expanded(op_, f.node):
                     ok = True
         if ok:
             res.ok("SIGN-1", k)
